@@ -287,12 +287,12 @@ impl Check for Refusal {
     }
     fn strategy(&self, _tier: Tier) -> BoxedStrategy<RefusalCase> {
         let c = cfg();
-        (ga::shaped_program(&c, 1), 0u8..5, any::<u8>())
+        (ga::shaped_program(&c, 1), 0u8..8, any::<u8>())
             .prop_map(|(program, mutation, which)| RefusalCase { program, mutation, which })
             .boxed()
     }
     fn rule(&self) -> String {
-        "tau* theory of a random program with exactly one defect injected into one formula with a first-order head: head argument replaced by a numeral / by an integer term / repeated variable / head variables renamed in one of two rules for the same predicate / outer quantifier dropped (free variables); oracle: completion returns None; control: every unmutated tau* theory is completed; non-trivial = a defect could be injected (the program has a rule with a first-order head); distinct by mutated theory text".into()
+        "tau* theory of a random program with exactly one defect injected into one formula with a first-order head: head argument replaced by a numeral / by an integer term / repeated variable / head variables renamed, swapped, rotated or given another sort in one of two partial definitions of the same predicate / outer quantifier dropped (free variables); oracle: completion returns None; control: every unmutated tau* theory is completed; non-trivial = a defect could be injected (the program has a rule with a first-order head); distinct by mutated theory text".into()
     }
     fn run(&self, case: &RefusalCase) -> Outcome {
         let theory = case.program.clone().tau_star();
@@ -347,6 +347,36 @@ impl Check for Refusal {
                 let original = mutated.formulas[idx].clone();
                 let renamed = rename_head_variables(original);
                 mutated.formulas.push(renamed);
+            }
+            5 | 6 => {
+                // a second partial definition whose head lists the same variables in another order
+                label = if case.mutation == 5 { "permuted-head-swap" } else { "permuted-head-rotate" };
+                let mut copy = mutated.formulas[idx].clone();
+                let a = first_head_atom(&mut copy).unwrap();
+                if a.terms.len() < 2 || a.terms[0] == a.terms[1] {
+                    return Outcome::skip("head has a single argument");
+                }
+                if case.mutation == 5 {
+                    let n = a.terms.len();
+                    a.terms.swap(0, n - 1);
+                } else {
+                    a.terms.rotate_left(1);
+                }
+                mutated.formulas.push(copy);
+            }
+            7 => {
+                // a second partial definition whose head variable has another sort
+                label = "head-variable-sort";
+                let mut copy = mutated.formulas[idx].clone();
+                if let fol::Formula::QuantifiedFormula { quantification, .. } = &mut copy {
+                    match quantification.variables.first_mut() {
+                        Some(v) if v.sort == fol::Sort::General => v.sort = fol::Sort::Integer,
+                        _ => return Outcome::skip("formula is not quantified"),
+                    }
+                } else {
+                    return Outcome::skip("formula is not quantified");
+                }
+                mutated.formulas.push(copy);
             }
             4 => {
                 label = "free-variable";
